@@ -291,6 +291,7 @@ def pmap(
                         maxtasksperchild=maxtasksperchild)
         _POOLS[key] = pool
     clean = False
+    pids0 = {w.pid for w in pool._pool}
     try:
         it = pool.imap_unordered(
             _guard_chunk,
@@ -299,18 +300,26 @@ def pmap(
         )
         while True:
             try:
+                wait = 5.0
                 if deadline is not None:
                     left = deadline - time.time()
                     if left <= 0:
                         return
-                    rs = it.next(timeout=left)
-                else:
-                    rs = it.next()
+                    wait = min(wait, left)
+                rs = it.next(timeout=wait)
             except StopIteration:
                 clean = True
                 return
             except mp.TimeoutError:
-                return
+                # multiprocessing.Pool silently replaces a worker that died
+                # (killed, or aborted inside native code) and the task it
+                # was running never completes: detect it instead of hanging
+                if maxtasksperchild is None and \
+                        {w.pid for w in pool._pool} != pids0:
+                    raise HarnessError(
+                        'a pool worker process died (crash in native code '
+                        'or killed); its task is lost')
+                continue
             for r in rs:
                 if r[0] != 'ok':
                     raise HarnessError(r[1])
